@@ -25,6 +25,7 @@ Proof.
   - destruct b0; simpl in *; try discriminate.
     apply andb_true_iff in H1. destruct H1. f_equal; [apply H|apply H0]; assumption.
   - destruct b; simpl in *; try discriminate. f_equal. apply H. assumption.
+  - destruct b; simpl in *; try discriminate. f_equal. apply H. assumption.
   - destruct b; simpl in *; try discriminate. f_equal. apply tags_eqb_eq. assumption.
   - destruct b; simpl in *; try discriminate. f_equal. apply Nat.eqb_eq. assumption.
   - destruct b; simpl in *; try discriminate. f_equal. apply H. assumption.
@@ -35,6 +36,56 @@ Proof.
 Qed.
 
 Definition ty_eqb_eq := proj1 ty_eqb_eq_mut.
+
+Lemma subb_eq : forall a b,
+  subb a b = (ty_eqb a b ||
+              match a, b with
+              | TRec r, TDict u => rows_all_subb r u
+              | TArr x, TArr y => subb x y
+              | TDict x, TDict y => subb x y
+              | TRec r, TRec s => rows_subb r s
+              | _, _ => false
+              end).
+Proof. destruct a; reflexivity. Qed.
+
+Lemma subb_sound_mut :
+  (forall a b, subb a b = true -> sub a b) /\
+  (forall r, (forall u, rows_all_subb r u = true -> rows_sub_all r u) /\
+             (forall s, rows_subb r s = true -> rows_sub r s)).
+Proof.
+  apply ty_rows_ind; intros.
+  - rewrite subb_eq in H. apply orb_true_iff in H. destruct H as [H|H]; [apply ty_eqb_eq in H; subst; constructor|destruct b; discriminate].
+  - rewrite subb_eq in H. apply orb_true_iff in H. destruct H as [H|H]; [apply ty_eqb_eq in H; subst; constructor|destruct b; discriminate].
+  - rewrite subb_eq in H. apply orb_true_iff in H. destruct H as [H|H]; [apply ty_eqb_eq in H; subst; constructor|destruct b; discriminate].
+  - rewrite subb_eq in H. apply orb_true_iff in H. destruct H as [H|H]; [apply ty_eqb_eq in H; subst; constructor|destruct b; discriminate].
+  - (* TArr *)
+    rewrite subb_eq in H0. apply orb_true_iff in H0. destruct H0 as [H0|H0]; [apply ty_eqb_eq in H0; subst; constructor|].
+    destruct b; try discriminate. apply S_Arr. apply H. assumption.
+  - (* TFun *)
+    rewrite subb_eq in H1. apply orb_true_iff in H1. destruct H1 as [H1|H1]; [apply ty_eqb_eq in H1; subst; constructor|destruct b0; discriminate].
+  - (* TRec *)
+    rewrite subb_eq in H0. apply orb_true_iff in H0. destruct H0 as [H0|H0]; [apply ty_eqb_eq in H0; subst; constructor|].
+    destruct b; try discriminate.
+    + apply S_Rec. apply H. assumption.
+    + apply S_RecDict. apply H. assumption.
+  - (* TDict *)
+    rewrite subb_eq in H0. apply orb_true_iff in H0. destruct H0 as [H0|H0]; [apply ty_eqb_eq in H0; subst; constructor|].
+    destruct b; try discriminate. apply S_Dict. apply H. assumption.
+  - rewrite subb_eq in H. apply orb_true_iff in H. destruct H as [H|H]; [apply ty_eqb_eq in H; subst; constructor|destruct b; discriminate].
+  - rewrite subb_eq in H. apply orb_true_iff in H. destruct H as [H|H]; [apply ty_eqb_eq in H; subst; constructor|destruct b; discriminate].
+  - rewrite subb_eq in H0. apply orb_true_iff in H0. destruct H0 as [H0|H0]; [apply ty_eqb_eq in H0; subst; constructor|destruct b; discriminate].
+  - (* RNil *)
+    split; intros; [constructor|]. destruct s; simpl in *; try discriminate. constructor.
+  - (* RCons *)
+    destruct H0 as [Hall Hboth]. split.
+    + intros u Hu. simpl in Hu. apply andb_true_iff in Hu. destruct Hu as [H1 H2].
+      constructor; [apply H; assumption|apply Hall; assumption].
+    + intros s Hs. destruct s; simpl in Hs; try discriminate.
+      apply andb_true_iff in Hs. destruct Hs as [Hs H3]. apply andb_true_iff in Hs. destruct Hs as [H1 H2].
+      apply String.eqb_eq in H1. subst. constructor; [apply H; assumption|apply Hboth; assumption].
+Qed.
+
+Definition subb_sound := proj1 subb_sound_mut.
 
 (* induction principle for certificates (nested lists) *)
 Section atm_ind'.
@@ -57,6 +108,7 @@ Section atm_ind'.
   Hypothesis HAnnT : forall e T, P e -> P (AAnnT e T).
   Hypothesis HUntyped : forall u, P (AUntyped u).
   Hypothesis HCast : forall e T, P e -> P (ACast e T).
+  Hypothesis HSub : forall e T, P e -> P (ASub e T).
 
   Fixpoint atm_ind' (a : atm) : P a :=
     match a with
@@ -99,6 +151,7 @@ Section atm_ind'.
     | AAnnT e T => HAnnT e T (atm_ind' e)
     | AUntyped u => HUntyped u
     | ACast e T => HCast e T (atm_ind' e)
+    | ASub e T => HSub e T (atm_ind' e)
     end.
 End atm_ind'.
 
@@ -218,6 +271,10 @@ Section Sound.
       destruct Te; try discriminate.
       destruct (first_order T) eqn:Hf; [|discriminate].
       inversion Hi; subst. apply T_Cast; [apply IHa; assumption|assumption].
+    - (* Sub *)
+      destruct (infer Sg G a) as [A|] eqn:He; [|discriminate].
+      destruct (subb A T) eqn:Hs; [|discriminate].
+      inversion Hi; subst. eapply T_Sub; [apply IHa; eassumption|]. apply subb_sound. assumption.
   Qed.
 
   Theorem checker_sound_lemma : forall a T,
